@@ -795,3 +795,165 @@ Proof.
   destruct (tx_balances_never_increase U _ l HU Hcl Hwf Hn Hsc) as (_ & _ & H4).
   repeat split; assumption.
 Qed.
+
+(* ---------- opcode-level events: lowering keeps traces closed and well formed, so every theorem over [list ev]
+   covers STAKE / UNSTAKE / UNSTAKEALL / AUTHCALL as the opcodes are observed ---------- *)
+Lemma e18_pos : 0 < e18. Proof. unfold e18; lia. Qed.
+
+Lemma whole_of_nonneg : forall a, 0 <= a -> 0 <= whole_of a.
+Proof. intros. unfold whole_of. apply Z.div_pos; [assumption|apply e18_pos]. Qed.
+
+Lemma unstake_whole_nonneg : forall a s, 0 <= a -> 0 <= s -> 0 <= unstake_whole a s.
+Proof. intros a s Ha Hs. unfold unstake_whole. destruct (two64 - 1 <=? whole_of a); [assumption|apply whole_of_nonneg; assumption]. Qed.
+
+Lemma lower_closed : forall U e, oev_closed U e -> Forall (ev_closed U) (lower e).
+Proof.
+  intros U e H. destruct e as [p|a amount hm|o a amount stake hm now|o a stake hm now|s t v]; cbn [lower oev_closed] in *.
+  - constructor; [assumption|constructor].
+  - destruct ((whole_of amount <? two64) && hm); constructor; [exact H|constructor].
+  - destruct (hm && (unstake_whole amount stake <=? stake)); constructor; [exact H|constructor].
+  - destruct hm; constructor; [exact H|constructor].
+  - constructor; [exact H|constructor].
+Qed.
+
+Lemma lower_wf : forall e, oev_wf e -> Forall ev_wf (lower e).
+Proof.
+  intros e H. destruct e as [p|a amount hm|o a amount stake hm now|o a stake hm now|s t v]; cbn [lower oev_wf] in *.
+  - constructor; [assumption|constructor].
+  - destruct ((whole_of amount <? two64) && hm); constructor; [|constructor].
+    cbn [ev_wf]. pose proof (whole_of_nonneg amount H). pose proof e18_pos. nia.
+  - destruct H as (Ha & Hs). destruct (hm && (unstake_whole amount stake <=? stake)); constructor; [|constructor].
+    cbn [ev_wf]. pose proof (unstake_whole_nonneg amount stake Ha Hs). pose proof e18_pos. split; [assumption|nia].
+  - destruct hm; constructor; [|constructor]. cbn [ev_wf]. pose proof e18_pos. split; [lia|nia].
+  - constructor; [exact I|constructor].
+Qed.
+
+Lemma lower_trace_closed : forall U tr, Forall (oev_closed U) tr -> Forall (ev_closed U) (lower_trace tr).
+Proof.
+  intros U tr H. unfold lower_trace. induction H as [|e r He Hr IH]; cbn [flat_map]; [constructor|].
+  apply Forall_app. split; [apply lower_closed; assumption|assumption].
+Qed.
+
+Lemma lower_trace_wf : forall tr, Forall oev_wf tr -> Forall ev_wf (lower_trace tr).
+Proof.
+  intros tr H. unfold lower_trace. induction H as [|e r He Hr IH]; cbn [flat_map]; [constructor|].
+  apply Forall_app. split; [apply lower_wf; assumption|assumption].
+Qed.
+
+(* one opcode, on any ledger with any stack of open snapshots: the invariant (non-negative balances, escrow entries
+   closed and non-negative, balances + stake + escrow + destroyed = W) is kept, here and in every open snapshot *)
+Lemma opcode_conserves : forall U W e c, universe U -> oev_closed U e -> oev_wf e -> goodst U W c ->
+  goodst U W (exec_trace_st repaired (lower e) c).
+Proof.
+  intros. apply exec_trace_st_good; try assumption; [apply lower_closed|apply lower_wf]; assumption.
+Qed.
+
+(* a contract transaction whose EVM run is observed as a list of opcode-level events *)
+Lemma observed_contract_tx_conserves : forall U src jok gas value creation nz z otr eok gu stale l,
+  universe U -> In src U -> Forall (oev_closed U) otr -> Forall oev_wf otr -> 0 <= gu ->
+  match stale with Some s => 0 <= s | None => True end -> nonneg l -> sched_ok U (sched l) ->
+  let l' := exec_tx repaired (contract_tx src jok gas value creation nz z (lower_trace otr) eok gu stale) l in
+  wealth U l' + burned l' = wealth U l + burned l /\ nonneg l' /\ sched_ok U (sched l') /\ sumU U (bal l') <= sumU U (bal l).
+Proof.
+  intros. apply contract_tx_conserves; try assumption; [apply lower_trace_closed|apply lower_trace_wf]; assumption.
+Qed.
+
+(* exactness of the three stake opcodes (repaired source): what leaves the balance enters the stake, what leaves the
+   stake enters the escrow, nothing else moves *)
+Lemma stake_op_exact : forall a amount hm l st,
+  let c' := exec_trace_st repaired (lower (OStake a amount hm)) (l, st) in
+  snd c' = st /\ sched (fst c') = sched l /\ burned (fst c') = burned l /\
+  (forall x, x <> a -> bal (fst c') x = bal l x) /\
+  bal l a - bal (fst c') a = locked (fst c') - locked l /\
+  (op_result (OStake a amount hm) l = Some 1 -> 0 < whole_of amount -> locked (fst c') - locked l = whole_of amount * e18).
+Proof.
+  intros a amount hm l st. cbn [lower op_result].
+  destruct ((whole_of amount <? two64) && hm) eqn:E; cbn [negb exec_trace_st fold_left fst snd].
+  - cbn [exec_ev]. unfold sub_bal. destruct (Z.ltb_spec (bal l a) (whole_of amount * e18)); cbn [fst snd bal locked sched burned].
+    + repeat split; try reflexivity; try lia.
+      destruct (Z.eqb_spec (whole_of amount) 0); [lia|discriminate].
+    + repeat split; try reflexivity; try (rewrite upd_same; lia).
+      * intros x Hx. rewrite upd_other by assumption. reflexivity.
+      * intros _ _. lia.
+  - repeat split; try reflexivity; try lia. discriminate.
+Qed.
+
+Lemma unstake_op_exact : forall o a amount stake hm now l st, 0 <= amount -> 0 <= stake ->
+  let c' := exec_trace_st repaired (lower (OUnstake o a amount stake hm now)) (l, st) in
+  snd c' = st /\ bal (fst c') = bal l /\ burned (fst c') = burned l /\
+  locked l - locked (fst c') = sched_total (sched (fst c')) - sched_total (sched l) /\
+  (op_result (OUnstake o a amount stake hm now) l = Some 1 ->
+   locked l - locked (fst c') = unstake_whole amount stake * e18).
+Proof.
+  intros o a amount stake hm now l st Ha Hs. cbn [lower op_result].
+  destruct (hm && (unstake_whole amount stake <=? stake)); cbn [exec_trace_st fold_left fst snd].
+  - cbn [exec_ev unstake_clamped repaired fst snd bal locked sched burned sched_total].
+    repeat split; try reflexivity; try lia.
+    destruct (Z.ltb_spec amount (unstake_whole amount stake * e18)); cbn [sched_total]; lia.
+  - repeat split; try reflexivity; try lia. discriminate.
+Qed.
+
+(* ---------- the reward specification never hands out more than the per-block reward T ---------- *)
+Definition stakes_nonneg (l : list (addr * Z)) : Prop := Forall (fun p => 0 <= snd p) l.
+
+Lemma sum_snd_app : forall a b, sum_snd (a ++ b) = sum_snd a + sum_snd b.
+Proof. induction a as [|[x y] r IH]; intros; cbn [app sum_snd]; [lia|rewrite IH; lia]. Qed.
+
+Lemma sum_snd_nonneg : forall l, stakes_nonneg l -> 0 <= sum_snd l.
+Proof. induction 1 as [|[x y] r H _ IH]; cbn [sum_snd]; cbn [snd] in *; lia. Qed.
+
+Lemma acc_add_sum : forall m a v, sum_snd (acc_add m a v) = sum_snd m + v.
+Proof.
+  induction m as [|[x y] r IH]; intros; cbn [acc_add sum_snd]; [lia|].
+  destruct (N.eqb x a); cbn [sum_snd]; [lia|rewrite IH; lia].
+Qed.
+
+Lemma acc_add_nonneg : forall m a v, stakes_nonneg m -> 0 <= v -> stakes_nonneg (acc_add m a v).
+Proof.
+  induction m as [|[x y] r IH]; intros a v Hm Hv; cbn [acc_add].
+  - constructor; [exact Hv|constructor].
+  - inversion Hm as [|? ? Hy Hr]; subst. cbn [snd] in Hy.
+    destruct (N.eqb x a); constructor; cbn [snd]; try assumption; try lia. apply IH; assumption.
+Qed.
+
+Lemma fold_acc_sum : forall (k : Z) ps m, 0 <= k -> stakes_nonneg ps -> stakes_nonneg m ->
+  let m' := fold_left (fun m p => acc_add m (fst p) (7 * snd p * k)) ps m in
+  sum_snd m' = sum_snd m + 7 * k * sum_snd ps /\ stakes_nonneg m'.
+Proof.
+  intros k ps. induction ps as [|[a s] r IH]; intros m Hk Hps Hm; cbn [fold_left sum_snd fst snd].
+  - split; [lia|assumption].
+  - inversion Hps as [|? ? Hs Hr]; subst. cbn [snd] in Hs.
+    destruct (IH (acc_add m a (7 * s * k)) Hk Hr) as (H1 & H2); [apply acc_add_nonneg; [assumption|nia]|].
+    cbn zeta in H1. rewrite acc_add_sum in H1. split; [lia|exact H2].
+Qed.
+
+Lemma filter_sum_le : forall f m, stakes_nonneg m -> sum_snd (filter f m) <= sum_snd m.
+Proof.
+  intros f m H. induction H as [|[x y] r Hy _ IH]; cbn [filter sum_snd]; [lia|].
+  cbn [snd] in Hy. destruct (f (x, y)); cbn [sum_snd]; lia.
+Qed.
+
+Lemma map_weight_sum : forall (k : Z) vs, sum_snd (map (fun q : addr * Z => (fst q, 4 * snd q * k)) vs) = 4 * k * sum_snd vs.
+Proof. induction vs as [|[a v] r IH]; cbn [map sum_snd fst snd]; [lia|rewrite IH; lia]. Qed.
+
+Lemma nz1_ge : forall x, 0 <= x -> x <= nz1 x /\ 1 <= nz1 x.
+Proof. intros x H. unfold nz1. destruct (Z.eqb_spec x 0); lia. Qed.
+
+Lemma reward_weights_bounded : forall castor proposers validators,
+  stakes_nonneg proposers -> stakes_nonneg validators ->
+  sum_snd (reward_weights castor proposers validators) <= reward_weight_total proposers validators.
+Proof.
+  intros castor P Vs HP HV. unfold reward_weights, reward_weight_total.
+  pose proof (sum_snd_nonneg P HP) as HS. pose proof (sum_snd_nonneg Vs HV) as HVs.
+  destruct (nz1_ge (sum_snd P) HS) as (HS1 & HS2). destruct (nz1_ge (sum_snd Vs) HVs) as (HV1 & HV2).
+  set (S' := nz1 (sum_snd P)) in *. set (V' := nz1 (sum_snd Vs)) in *.
+  assert (Hm0 : stakes_nonneg [(castor, 3 * S' * V')]) by (constructor; [cbn [snd]; nia|constructor]).
+  destruct (fold_acc_sum V' P [(castor, 3 * S' * V')]) as (H1 & H2); try assumption; try lia.
+  cbn zeta in H1, H2. rewrite sum_snd_app, map_weight_sum.
+  match goal with |- sum_snd (filter ?f ?m) + _ <= _ => pose proof (filter_sum_le f m H2) as H3 end.
+  rewrite H1 in H3. cbn [sum_snd] in H3.
+  assert (A1 : V' * sum_snd P <= V' * S') by (apply Z.mul_le_mono_nonneg_l; lia).
+  assert (A2 : S' * sum_snd Vs <= S' * V') by (apply Z.mul_le_mono_nonneg_l; lia).
+  apply Z.le_trans with (3 * S' * V' + 0 + 7 * V' * sum_snd P + 4 * S' * sum_snd Vs); [apply Z.add_le_mono_r; exact H3|].
+  generalize dependent (sum_snd P). generalize dependent (sum_snd Vs). intros. nia.
+Qed.
